@@ -121,6 +121,15 @@ pub fn run<C: Suite>(ctx: &mut Ctx) {
                         co.public_key_package.push(g.pkp.clone());
                     }
                 }
+                // the threshold *field* of the packages at and beyond the one-byte / two-byte varint boundaries, on the group
+                // of a small sharing (the field is what is encoded; the sharing does not have to be that large)
+                if let Ok(g) = crate::proto::dealer_group::<C>(3, 2, None, None, &mut rng) {
+                    for tf in [127u16, 128, 255, 256, 257, 667, 16383, 16384, 65535] {
+                        co.public_key_package.push(frost_core::keys::PublicKeyPackage::<C>::new(g.pkp.verifying_shares().clone(), *g.pkp.verifying_key(), Some(tf)));
+                        let kp = &g.kps[&g.ids[0]];
+                        co.key_package.push(frost_core::keys::KeyPackage::<C>::new(*kp.identifier(), *kp.signing_share(), *kp.verifying_share(), *kp.verifying_key(), tf));
+                    }
+                }
                 each_wire_type!(co, roundtrip, ctx);
                 ctx.class(format!("roundtrip/large-threshold/t={t}"));
             }
